@@ -27,6 +27,16 @@ SCRIPTS = {'put': 'trash-put', 'list': 'trash-list', 'restore': 'trash-restore',
 
 _prepared = False
 
+# contracts bound in every forked run unless VERIF_CONTRACTS=0; failures and
+# evaluation counts of the current case are collected here for the driver
+DEFAULT_CONTRACTS = ['format_trashinfo', 'for_file', 'parse_indexes',
+                     'older_than', 'Filter.matches', 'scope', 'parse_path',
+                     'parse_deletion_date'] \
+    if os.environ.get('VERIF_CONTRACTS', '1') != '0' else None
+DEFAULT_PLAN = {}
+CONTRACT_FAILS = []
+CONTRACT_COUNTS = {}
+
 
 def prepare():
     """import the code under test once, from REPO, and check it is REPO's."""
@@ -219,7 +229,9 @@ def run_cmd(world, cmd, args, stdin=b'', plan=None, cwd=None, env=None,
                 e[k] = v
     if cmd == 'put' and 'TRASH_PUT_FAKE_UID_FOR_TESTING' not in e:
         pass  # os.getuid is patched by the shim; keep the env like a user's
-    plan = dict(plan or {})
+    plan = dict(DEFAULT_PLAN, **(plan or {}))
+    if contracts is None:
+        contracts = DEFAULT_CONTRACTS
     cwd = cwd or world.cwd()
     res = Result()
     res.argv = [cmd] + list(args)
@@ -317,6 +329,11 @@ def finish_cmd(pid, st):
         os.unlink(logpath)
     except OSError:
         pass
+    for c in res.contracts:
+        if len(CONTRACT_FAILS) < 20:
+            CONTRACT_FAILS.append(dict(c, argv=res.argv))
+    for k, n in res.ccounts.items():
+        CONTRACT_COUNTS[k] = CONTRACT_COUNTS.get(k, 0) + n
     return res
 
 
